@@ -196,6 +196,8 @@ def wire_cases(tier):
 
 def suites(tier, seed):
     return [
+        Suite("water-mark-boundaries", "machine", lambda: __import__("machgen").water_mark_cases(Rng(seed + 18)), monitor=__import__("props.c01", fromlist=["x"]).monitor, nontrivial=lambda c, il: True, canon=__import__("machgen").canon_nondet, exhaustive=True,
+              rule="queue entries whose sizes add up to the high-water mark exactly / one byte less / one byte more (2, 3, 5 frames of 5-7 queued): one handler run takes the whole queue whatever is buffered; everything reaches the wire once, in order"),
         Suite("throttle-sessions", "machine", lambda: gen(tier, seed), monitor=monitor, nontrivial=nontrivial, canon=mg.canon_nondet, candidate_ok=mg.candidate_ok,
               rule="random sessions dominated by queued submissions (bound 1/2/4), throttle phases (deregister ... reregister) during which channels are opened, closed by the server and submitted to, and polls of the REAL mio Poll after every phase; the ready-token sets are part of the exact diff"),
         Suite("resume", "machine", lambda: resume_cases(tier, seed), monitor=monitor, nontrivial=nontrivial, canon=mg.canon_nondet, candidate_ok=mg.candidate_ok,
